@@ -57,7 +57,7 @@ func runC12(ctx *Ctx, idx int) {
 	dir := directedKeySets()
 	overLimit := false
 	qmax := 2500
-	nBig := 2
+	nBig := 3
 	if ctx.Tier == "thorough" {
 		nBig = 12
 	}
@@ -91,7 +91,22 @@ func runC12(ctx *Ctx, idx int) {
 	case j < 8+nBig:
 		// record sets big enough for short-node tables of 9 and 10 bits and for
 		// more than 65535 nodes
-		ks = genBig(r, []int{5, 4, 0, 2, 1, 3, 8, 14}[(j-8)%8])
+		if (j-8)%8 == 2 {
+			// more than 2^18 records in one index
+			seen := make(map[string]bool, 300000)
+			k := make([]string, 0, 290000)
+			for len(k) < 280000 {
+				x := string(r.Bytes(r.Range(5, 7)))
+				if !seen[x] {
+					seen[x] = true
+					k = append(k, x)
+				}
+			}
+			sort.Strings(k)
+			ks = KeySet{"big:uniform-280k", k}
+		} else {
+			ks = genBig(r, []int{5, 4, 0, 2, 1, 3, 9, 16}[(j-8)%8])
+		}
 		qmax = 600
 	default:
 		ks = genKeySet(r, scale)
